@@ -4,7 +4,9 @@ import TR.Lemmas.Retry
 
 Quantification of every theorem below: every configuration `cfg` — `max_attempts` fixed or per
 request (any value, 0 included), **every** predicate `pred : Nat → Bool` over error kinds,
-**every** back-off function `backoff : Nat → Nat`, **every** budget (arbitrary `withdraw` /
+**every** back-off function `backoff : Nat → Nat` (retry number ↦ configured delay in **microseconds**;
+the instants of the model — `now`, `start`, `due`, `seen` — are whole milliseconds, as in the
+compared event log), **every** budget (arbitrary `withdraw` /
 `deposit` functions, hence every sequence of grant answers; `none` = no budget) — and every list
 of operations `ops`: any number of requests with any finite outcome scripts (latency, ok / error
 kind / panic / never), polled, dropped and interleaved in any order, with time advancing by any
@@ -158,7 +160,7 @@ theorem one_result (cfg : Cfg) (ops : List Op) (c : Nat) (cl : Caller)
   obtain ⟨_, h2⟩ := log_matches_history cfg ops c cl h
   rw [h2]; cases cl.result <;> simp
 
-/-- **The sleep before retry k is exactly `backoff (k−1)`.** The delays handed to `sleep` by a
+/-- **The sleep before retry k is exactly `backoff (k−1)`.** The delays (µs) handed to `sleep` by a
 request are, in order, `backoff 0, backoff 1, …` (newest first: `boList`), one per retry made
 (plus one while the request is sleeping). -/
 theorem sleeps_are_backoff (cfg : Cfg) (ops : List Op) (c : Nat) (cl : Caller)
@@ -169,18 +171,48 @@ theorem sleeps_are_backoff (cfg : Cfg) (ops : List Op) (c : Nat) (cl : Caller)
   have := hc.sleepsLen
   refine ⟨hc.sleeps, ?_, ?_⟩ <;> simp only [retries_eq] <;> omega
 
-/-- … and it is honoured: for any two consecutive attempts `q` (number `k−1`) and `p` (number
-`k`) of a request, `q`'s failure was observed at some instant `t`, no earlier than the inner
-future was ready, and `p` started no earlier than `t + backoff (k−1)`. -/
+/-- … and it is honoured, **in microseconds**: for any two consecutive attempts `q` (number `k−1`)
+and `p` (number `k`) of a request, `q`'s failure was observed at some instant `t` (ms), no earlier
+than the inner future was ready, and `p` started no earlier than the configured back-off after it:
+`t·1000 + backoff (k−1) ≤ start·1000` with `backoff` in µs — whatever fraction of a millisecond the
+configured delay has, for every back-off function (zero and `Duration::MAX`-like values included).
+More precisely the timer's rounding is *up*: the retry starts no earlier than
+`t + ⌈backoff (k−1) / 1000⌉` ms. -/
 theorem waits_at_least_backoff (cfg : Cfg) (ops : List Op) (c : Nat) (cl : Caller)
     (h : lookup (run cfg ops).callers c = some cl)
     (pre rest : List Att) (p q : Att) (hpq : cl.atts = pre ++ p :: q :: rest) :
     q.idx = rest.length ∧ p.idx = q.idx + 1 ∧
-    ∃ t, q.seen = some t ∧ q.due ≤ t ∧ t + cfg.backoff q.idx ≤ p.start := by
+    ∃ t, q.seen = some t ∧ q.due ≤ t ∧ t * 1000 + cfg.backoff q.idx ≤ p.start * 1000 ∧
+      t + ceilMs (cfg.backoff q.idx) ≤ p.start := by
   have hc : CInv cfg cl := (sinv_reachable cfg ops).all _ (mem_of_lookup h)
-  obtain ⟨_, h2, h3⟩ := hist_adjacent pre hc.hist hpq
+  obtain ⟨_, h2, t, h3, h4, h5⟩ := hist_adjacent pre hc.hist hpq
   have := hist_member (pre ++ [p]) hc.hist (a := q) (rest := rest) (by simp [hpq])
-  exact ⟨this.1, h2, h3⟩
+  have hle := le_ceilMs (cfg.backoff q.idx)
+  exact ⟨this.1, h2, t, h3, h4, by omega, h5⟩
+
+/-- **The timer rounds up, never down, and by less than a millisecond.** While a request is in its
+back-off (`sleeping u`), the wake-up instant `u` (ms) is the *first* millisecond boundary at or after
+"failure observed at `t`" + configured back-off (µs): `t·1000 + backoff ≤ u·1000 < t·1000 + backoff + 1000`.
+In particular a back-off of `0 < d < 1000` µs waits a full millisecond (never zero), a whole number
+of milliseconds is waited exactly, and a zero back-off does not wait (`u = t`). -/
+theorem backoff_deadline_rounds_up (cfg : Cfg) (ops : List Op) (c u : Nat) (cl : Caller)
+    (h : lookup (run cfg ops).callers c = some cl) (hp : cl.phase = .sleeping u) :
+    ∃ a tl t, cl.atts = a :: tl ∧ a.seen = some t ∧
+      t * 1000 + cfg.backoff tl.length ≤ u * 1000 ∧ u * 1000 < t * 1000 + cfg.backoff tl.length + 1000 ∧
+      (cfg.backoff tl.length = 0 → u = t) ∧
+      (∀ ms, cfg.backoff tl.length = ms * 1000 → u = t + ms) ∧
+      (0 < cfg.backoff tl.length → t < u) := by
+  have hc : CInv cfg cl := (sinv_reachable cfg ops).all _ (mem_of_lookup h)
+  have hph := hc.phase
+  simp only [PhaseInv, hp] at hph
+  obtain ⟨a, tl, t, ha, hs, hu', _⟩ := hph
+  have hh := hc.hist
+  rw [ha] at hh
+  rw [hh.1] at hu'
+  obtain ⟨e1, e2, e3⟩ := ceil_window t u (cfg.backoff tl.length) hu'
+  refine ⟨a, tl, t, ha, hs, e1, e2, ?_, ?_, e3⟩
+  · intro h0; rw [hu', h0, ceilMs_zero]; rfl
+  · intro ms hms; rw [hu', hms, ceilMs_whole]
 
 /-- Before the end of the back-off a poll of the request does nothing (no inner call, no budget
 operation) … -/
@@ -193,11 +225,12 @@ theorem no_retry_before_backoff (cfg : Cfg) (ops : List Op) (c u : Nat) (cl : Ca
   exact ⟨this.1, this.2.1⟩
 
 /-- … and a poll at or after it starts the retry in that step: polled on time, the gap is
-exactly `backoff (k−1)` (`u` is `t + backoff (k−1)` for the newest attempt, observed at `t`). -/
+exactly `⌈backoff (k−1) / 1000⌉` ms (`u` is `t + ⌈backoff (k−1) / 1000⌉` for the newest attempt,
+observed at `t`: the first millisecond boundary at or after the configured deadline). -/
 theorem retry_starts_when_polled (cfg : Cfg) (ops : List Op) (c u : Nat) (cl : Caller)
     (h : lookup (run cfg ops).callers c = some cl) (hp : cl.phase = .sleeping u)
     (hu : u ≤ (run cfg ops).now) :
-    (∃ a tl t, cl.atts = a :: tl ∧ a.seen = some t ∧ u = t + cfg.backoff tl.length) ∧
+    (∃ a tl t, cl.atts = a :: tl ∧ a.seen = some t ∧ u = t + ceilMs (cfg.backoff tl.length)) ∧
     ∃ rest, (stepS cfg (run cfg ops) (.poll c)).log
       = (run cfg ops).log ++ Ev.innerCall c (run cfg ops).serial :: rest := by
   have hc : CInv cfg cl := (sinv_reachable cfg ops).all _ (mem_of_lookup h)
@@ -312,7 +345,7 @@ theorem poll_runs_until_blocked (cfg : Cfg) (ops : List Op) (c : Nat) (cl : Call
 
 /-- err1 retryable, err2 not; back-off 5·2^k ms; token bucket with a single token -/
 def cfgEx : Cfg :=
-  { max := 3, pred := fun k => k == 1, backoff := fun k => 5 * 2 ^ k,
+  { max := 3, pred := fun k => k == 1, backoff := fun k => 5000 * 2 ^ k,
     budget := some (bucket 1), b0 := ⟨1, 1⟩ }
 
 /-- Two requests share the one-token bucket: request 1 gets the grant and retries exactly
@@ -345,7 +378,24 @@ example :
 example :
     (lookup (run cfgEx [.arrive 7 none [⟨0, .err 1⟩, ⟨0, .err 1⟩], .poll 7]).callers 7).map
       (fun cl => (cl.phase, cl.sleeps, cl.grants, cl.atts.length))
-    = some (.sleeping 5, [5], [true], 1) := by decide
+    = some (.sleeping 5, [5000], [true], 1) := by decide
+
+/-- Back-offs that are not whole milliseconds (`fn:900,1500,2001` µs), inner call failing at once:
+the 900 µs back-off is waited (no retry in the first poll, none possible before t = 1 ms), the retry
+after 1.5 ms starts at 1 + 2 = 3 ms (a poll at 2 ms does nothing), the one after 2.001 ms at 3 + 3 = 6 ms. -/
+example :
+    ((run { max := 4, backoff := fun k => [900, 1500, 2001].getD k 0 }
+      [.arrive 1 none [⟨0, .err 1⟩, ⟨0, .err 1⟩, ⟨0, .err 1⟩, ⟨0, .ok⟩], .poll 1, .adv 1, .poll 1,
+       .adv 1, .poll 1, .adv 1, .poll 1, .adv 2, .poll 1, .adv 1, .poll 1]).callers.map
+        (fun p => ((p.2.atts.map (·.start)).reverse, p.2.sleeps.reverse, p.2.result)))
+    = [([0, 1, 3, 6], [900, 1500, 2001], some (.ok 3))] := by decide
+
+/-- a `Duration::MAX` back-off never ends (here: not after 10^12 ms), a zero one does not wait -/
+example :
+    ((run { max := 3, backoff := fun k => [0, durMaxUs].getD k 0 }
+      [.arrive 1 none [⟨0, .err 1⟩, ⟨0, .err 1⟩, ⟨0, .ok⟩], .poll 1, .adv 1000000000000, .poll 1]).callers.map
+        (fun p => ((p.2.atts.map (·.start)).reverse, p.2.phase)))
+    = [([0, 0], .sleeping (2 ^ 64 * 1000))] := by decide
 
 /-- an arbitrary sequence of grant answers is a budget: here the answers `true, false` scripted
 through the token counter -/
